@@ -247,6 +247,9 @@ impl StreamsState {
         self.pending.clear();
         self.send_streams = 0;
         self.data_sent = 0;
+        self.unacked_data = 0;
+        // The remembered connection-level limit is void; the new one is about to be applied
+        self.max_data = 0;
         self.connection_blocked.clear();
     }
 
